@@ -199,6 +199,10 @@ pub enum MutOp {
     XorU128(u128),
     /// set a leaf bool
     SetBool(bool),
+    SetU128(u128),
+    SetBytes(Vec<u8>),
+    /// XOR a leaf u128 with the probed global key of a party (dynamic, read in the same poll)
+    XorDeltaOf(usize),
 }
 
 #[derive(Clone, Debug, PartialEq)]
@@ -272,6 +276,9 @@ pub fn apply(s: &Sch, x: &mut Val, m: &TreeMut, rng: &mut impl Rng) -> bool {
         (MutOp::Randomize, Val::Bytes(b)) => { rng.fill(&mut b[..]); true }
         (MutOp::XorU128(d), Val::U128(w)) => { *w ^= *d; true }
         (MutOp::SetBool(v), Val::Bool(b)) => { *b = *v as u8; true }
+        (MutOp::SetU128(d), Val::U128(w)) => { *w = *d; true }
+        (MutOp::SetBytes(d), Val::Bytes(b)) if d.len() == b.len() => { b.copy_from_slice(d); true }
+        (MutOp::XorDeltaOf(p), Val::U128(w)) => match crate::hooks::delta_of(*p) { Some(d) => { *w ^= d; true } None => false },
         (MutOp::BoolTwo, Val::Bool(b)) => { *b = 2; true }
         (MutOp::SomeToNone, o @ Val::Opt(Some(_))) => { *o = Val::Opt(None); true }
         (MutOp::NoneToSome, o @ Val::Opt(None)) => {
